@@ -188,11 +188,18 @@ def run_case(case):
                 z.extractall(out)
             top = ""
         elif case["via"] == "api":
+            # how the caller spells the tree's path: plainly, with './', absolutely, with a trailing '/', through '..' from a sibling
+            sp = case.get("spelling") or "plain"
+            if sp == "climb":
+                os.makedirs(os.path.join(wd, "src", "sibling"), exist_ok=True)
+                os.chdir(os.path.join(wd, "src", "sibling"))
+            arg = {"plain": "tree", "dot": "./tree", "abs": src_root, "slash": "tree/", "climb": "../tree", "inner": "tree/../tree"}[sp]
             with py7zr.SevenZipFile(arc, "w", dereference=deref, password=case.get("password")) as z:
-                z.writeall("tree", case.get("arcname"))
+                z.writeall(arg, case.get("arcname"))
+            os.chdir(os.path.join(wd, "src"))
             with py7zr.SevenZipFile(arc, "r", password=case.get("password")) as z:
                 z.extractall(out)
-            top = case.get("arcname") or "tree"
+            top = case.get("arcname") or ("tree" if sp != "abs" else src_root.lstrip("/"))
         elif case["via"] == "shutil":
             import shutil as sh
             try:
